@@ -877,6 +877,9 @@ class Executor:
         if name in ("memcmp", "bcmp"):
             env[ins.res] = self._memcmp(st, res, site, A(0), A(1), A(2))
             return True
+        if name == "strncmp":
+            env[ins.res] = self._strncmp(st, res, site, A(0), A(1), A(2))
+            return True
         if name in self.m.functions:
             args = [self.val(st, a) for a in ins.args]
             sub = self.run(name, args, st.mem, self._regions, guard=st.guard, depth=depth + 1,
@@ -995,6 +998,29 @@ class Executor:
         regs = self._regions + self.global_regions
         self._oblige(res, "oob-read", site, st, z3.Not(z3.Or(*[g.contains(p, n) for g in regs])), "strcmp lhs")
         self._oblige(res, "oob-read", site, st, z3.Not(z3.Or(*[g.contains(q, n) for g in regs])), "strcmp rhs")
+        return _simp(r)
+
+    def _strncmp(self, st, res, site, p, q, n):
+        """C contract: like strcmp, but at most n characters are compared."""
+        if n.size() < 64:
+            n = z3.ZeroExt(64 - n.size(), n)
+        bound, const = self._len_bound(n)
+        bound = min(bound, self.MAX_STR)
+        if not const:
+            self._oblige(res, "memop-bound", site, st, z3.UGT(n, bv(bound, 64)), "strncmp bound")
+        r = bv(0, 32)
+        seen = bv(bound, 64)
+        for i in range(bound - 1, -1, -1):
+            a = z3.Select(st.mem, _simp(p + bv(i, 64)))
+            b = z3.Select(st.mem, _simp(q + bv(i, 64)))
+            diff = z3.ZeroExt(24, a) - z3.ZeroExt(24, b)
+            inside = z3.ULT(bv(i, 64), n)
+            r = z3.If(z3.Not(inside), bv(0, 32), z3.If(a != b, diff, z3.If(a == bv(0, 8), bv(0, 32), r)))
+            seen = z3.If(z3.Not(inside), bv(i, 64), z3.If(z3.Or(a != b, a == bv(0, 8)), bv(i + 1, 64), seen))
+        regs = self._regions + self.global_regions
+        nz = seen != bv(0, 64)
+        self._oblige(res, "oob-read", site, st, z3.And(nz, z3.Not(z3.Or(*[g.contains(p, seen) for g in regs]))), "strncmp lhs")
+        self._oblige(res, "oob-read", site, st, z3.And(nz, z3.Not(z3.Or(*[g.contains(q, seen) for g in regs]))), "strncmp rhs")
         return _simp(r)
 
     def _memcmp(self, st, res, site, p, q, n):
